@@ -67,7 +67,9 @@ HashConfig(s) ==
                 frames |-> [f \in 1..nf |-> [i \in 1..n |-> [k \in 1..d |-> HPos(s, f, i, k, Lk(k))]]],
                 wn |-> (IF wi = 0 THEN 1 ELSE 3), sharp |-> (IF DyadicCell(h) THEN 1 ELSE 0) ]
       withH == IF nf = 2 /\ K % 2 = 0 THEN base @@ [Hs |-> <<h, h2>>] ELSE base
-  IN  IF nf = 2 /\ K % 3 = 0 THEN withH @@ [tys |-> <<ty, [i \in 1..n |-> ty[(i % n) + 1]]>>] ELSE withH
+      \* two-frame members with the coarser bin width: both frames carry the SAME timestep label
+      withT == IF nf = 2 /\ wi = 1 THEN withH @@ [ts |-> <<100, 100>>] ELSE withH
+  IN  IF nf = 2 /\ K % 3 = 0 THEN withT @@ [tys |-> <<ty, [i \in 1..n |-> ty[(i % n) + 1]]>>] ELSE withT
 
 \* ------------------------------------------------------------- trace (direction B)
 Tr == IF Mode = "trace" THEN ndJsonDeserialize(IOEnv.TRACE_FILE) ELSE << >>
